@@ -41,8 +41,9 @@ def generate(rng, i, tier):
     m = gen.gen_member(rng, rows[0], len(rows), "m0", max_comps=6, modes=modes, zoo_p=0.5, zoo_pool=gen.ZOO)
     if rng.random() < 0.06:
         # the header row is taken anew from some line (reset_headers) and a column is appended on the lines after it
-        m["comps"].insert(0, f"line_number() == {rng.randint(0, 2)} -> reset_headers()")
-        m["comps"].append('append("extra", line_number())')
+        k1 = rng.randint(0, 2)
+        m["comps"].insert(0, f"line_number.nocontrib() == {k1} -> reset_headers()")
+        m["comps"].append(rng.choice(['append("extra", line_number())', f'line_number.nocontrib() == {k1 + rng.randint(1, 3)} -> append("extra", line_number())']))
     if rng.random() < 0.2:
         # narrow the returned line with collect(): columns that exist, and sometimes one that a short line lacks
         ncol = len(rows[0])
